@@ -1,7 +1,7 @@
 (* C08 on the goroutine LTS: what a run that ends in success has requested and completed
    is a function of the parameters alone (the ids whose content the diff needs), whatever
    the interleaving. *)
-From Coq Require Import List Arith Bool PeanoNat Lia.
+From Coq Require Import List Arith Bool PeanoNat Lia Permutation.
 From FS Require Import Model.Lts Model.LtsExplore Proofs.LtsInv Proofs.LtsSafe.
 Import ListNotations.
 
@@ -220,4 +220,169 @@ Proof.
   - destruct (memb id (reqs st1)) eqn:X, (memb id (reqs st2)) eqn:Y; auto.
     + assert (false = true) by (apply B2; apply B1; auto). discriminate.
     + assert (false = true) by (apply B1; apply B2; auto). discriminate.
+Qed.
+
+(* ---------- every file is requested at most once ---------- *)
+Definition dl_bound (st : state) : nat := match dl_pc st with DL_Handle i => i | _ => dl_i st end.
+Definition wr_ids (st : state) : list nat := map wr_id (wrs st).
+
+Definition inv9a (st : state) : Prop :=
+  (match dl_pc st with DL_Handle i => dl_i st = S i | _ => True end) /\
+  (forall id, In id (wr_ids st) -> id < dl_bound st) /\
+  NoDup (wr_ids st).
+
+Lemma NoDup_snoc : forall (l : list nat) a, NoDup l -> ~ In a l -> NoDup (l ++ [a]).
+Proof.
+  induction l; intros b H N; cbn.
+  - constructor; auto.
+  - inversion H; subst. constructor.
+    + intro X. apply in_app_or in X. destruct X as [X|[X|[]]]; auto. subst. apply N. left; auto.
+    + apply IHl; auto. intro; apply N; right; auto.
+Qed.
+
+Lemma map_set_nth_same : forall (l : list writer) j w x,
+  nth_error l j = Some w -> wr_id x = wr_id w -> map wr_id (set_nth j x l) = map wr_id l.
+Proof.
+  induction l; destruct j; intros w x H E.
+  - unfold nth_error in H; discriminate.
+  - unfold nth_error in H; discriminate.
+  - unfold nth_error in H. injection H as H. subst. change (set_nth 0 x (w :: l)) with (x :: l). cbn. congruence.
+  - change (nth_error l j = Some w) in H. change (set_nth (S j) x (a :: l)) with (a :: set_nth j x l).
+    cbn. f_equal. eapply IHl; eauto.
+Qed.
+
+Lemma wr_ids_step : forall p st l st', step p st l = Some st' ->
+  wr_ids st' = wr_ids st \/
+  (exists i, dl_pc st = DL_Handle i /\ kind_of p i = ENeed /\ wr_ids st' = wr_ids st ++ [i] /\
+             dl_pc st' = DL_Next /\ dl_i st' = dl_i st).
+Proof.
+  intros p st l st' H. unfold wr_ids.
+  destruct l; unfold_steps H; step_split H; inv_some; subst;
+  repeat match goal with w : writer |- _ => destruct w; cbn in * end; subst;
+  cbn; unfold setwr; cbn; auto;
+  try (left; match goal with E : nth_error (wrs _) _ = Some _ |- _ =>
+         eapply map_set_nth_same; [exact E | reflexivity] end).
+  right. exists i. repeat split; auto. rewrite map_app. reflexivity.
+Qed.
+
+
+Lemma inv9a_step : forall p st l st', inv9a st -> step p st l = Some st' -> inv9a st'.
+Proof.
+  intros p st l st' (I1 & I2 & I3) H.
+  destruct (wr_ids_step _ _ _ _ H) as [E|(i & D & K & E & B1 & B2)].
+  - unfold inv9a. rewrite E.
+    assert (B: (match dl_pc st' with DL_Handle i => dl_i st' = S i | _ => True end) /\ dl_bound st <= dl_bound st').
+    { unfold dl_bound in *. clear E I2 I3.
+      destruct l; unfold_steps H; step_split H; inv_some; subst;
+      repeat match goal with w : writer |- _ => destruct w; cbn in * end; subst; cbn;
+      repeat match goal with E : dl_pc _ = _ |- _ => rewrite E in * end; cbn; auto; try lia. }
+    destruct B as [B1 B2]. repeat split; auto. intros id Hin. apply I2 in Hin. lia.
+  - unfold inv9a. rewrite E. rewrite D in I1.
+    unfold dl_bound in *. rewrite B1, B2. rewrite D in I2. repeat split; auto.
+    + intros id Hin. apply in_app_or in Hin. destruct Hin as [Hin|[Hin|[]]].
+      * apply I2 in Hin. lia.
+      * subst. lia.
+    + apply NoDup_snoc; auto. intro Hin. apply I2 in Hin. lia.
+Qed.
+
+Lemma inv9a_reachable : forall p st, reachable p st -> inv9a st.
+Proof.
+  induction 1.
+  - unfold inv9a, wr_ids, dl_bound; cbn. repeat split; auto. intros id []. constructor.
+  - eapply inv9a_step; eauto.
+Qed.
+
+Definition pre_send (pc : wrpc) : bool := match pc with WR_Start | WR_Lock | WR_Send => true | _ => false end.
+
+(* what one step does to the writers and to the request set *)
+Lemma wrs_reqs_step : forall p st l st', step p st l = Some st' ->
+  (wrs st' = wrs st /\ reqs st' = reqs st) \/
+  (exists j id pc pc', nth_error (wrs st) j = Some {| wr_id := id; wr_pc := pc |} /\
+     wrs st' = set_nth j {| wr_id := id; wr_pc := pc' |} (wrs st) /\ reqs st' = reqs st /\
+     (pre_send pc' = true -> pre_send pc = true)) \/
+  (exists j id, nth_error (wrs st) j = Some {| wr_id := id; wr_pc := WR_Send |} /\
+     wrs st' = set_nth j {| wr_id := id; wr_pc := WR_Wait |} (wrs st) /\ reqs st' = id :: reqs st) \/
+  (exists i, dl_pc st = DL_Handle i /\ wrs st' = wrs st ++ [{| wr_id := i; wr_pc := WR_Start |}] /\ reqs st' = reqs st).
+Proof.
+  intros p st l st' H.
+  destruct l; unfold_steps H; step_split H; inv_some; subst;
+  repeat match goal with w : writer |- _ => destruct w; cbn in * end; subst;
+  cbn; unfold setwr; cbn; auto.
+  all: try (right; left; do 4 eexists; split; [eassumption|]; split; [reflexivity|]; split; [reflexivity|];
+            cbn; intro X; try discriminate X; reflexivity).
+  all: try (right; right; left; do 2 eexists; split; [eassumption|]; split; reflexivity).
+  all: try (right; right; right; eexists; split; [first [eassumption | reflexivity]|]; split; reflexivity).
+Qed.
+
+Lemma wr_ids_inj : forall st j j' w w',
+  NoDup (wr_ids st) -> nth_error (wrs st) j = Some w -> nth_error (wrs st) j' = Some w' ->
+  wr_id w = wr_id w' -> j = j'.
+Proof.
+  intros st j j' w w' N A B E. unfold wr_ids in N.
+  apply (proj1 (NoDup_nth_error _) N j j').
+  - rewrite map_length. eapply nth_error_some_lt; eauto.
+  - rewrite (map_nth_error wr_id _ _ A), (map_nth_error wr_id _ _ B). congruence.
+Qed.
+
+Definition inv9b (st : state) : Prop :=
+  NoDup (reqs st) /\
+  (forall j w, nth_error (wrs st) j = Some w -> pre_send (wr_pc w) = true -> ~ In (wr_id w) (reqs st)).
+
+Lemma inv9b_step : forall p st l st',
+  inv7b st -> inv9a st -> inv9b st -> step p st l = Some st' -> inv9b st'.
+Proof.
+  intros p st l st' (_ & _ & B3 & _) (A1 & A2 & A3) (I1 & I2) H.
+  destruct (wrs_reqs_step _ _ _ _ H) as [(E1 & E2)|[(j & id & pc & pc' & N & E1 & E2 & M)|[(j & id & N & E1 & E2)|(i & D & E1 & E2)]]];
+  unfold inv9b; rewrite E1, E2.
+  - split; auto.
+  - split; auto. intros j' w' Hn P.
+    rewrite (nth_error_set_nth _ _ _ j' _ _ N) in Hn. destruct (Nat.eqb_spec j j').
+    + inv_some. subst. cbn in *. apply (I2 _ _ N). cbn. auto.
+    + eapply I2; eauto.
+  - assert (Nid: ~ In id (reqs st)) by (apply (I2 _ _ N); reflexivity).
+    split. constructor; auto.
+    intros j' w' Hn P. rewrite (nth_error_set_nth _ _ _ j' _ _ N) in Hn. destruct (Nat.eqb_spec j j').
+    + inv_some. subst. cbn in P. discriminate.
+    + intros [X|X].
+      * apply n. eapply wr_ids_inj; eauto; cbn; auto.
+      * eapply I2; eauto.
+  - split; auto. intros j' w' Hn P. rewrite nth_error_snoc in Hn.
+    destruct (j' <? length (wrs st)).
+    + eapply I2; eauto.
+    + destruct (j' =? length (wrs st)); inv_some; subst; try discriminate. cbn.
+      intro X. apply memb_true_iff in X. apply B3 in X. destruct X as (j0 & w0 & X1 & X2).
+      assert (In i (wr_ids st)). { unfold wr_ids. subst i. apply in_map. eapply nth_error_In; eauto. }
+      apply A2 in H0. unfold dl_bound in H0. rewrite D in H0. lia.
+Qed.
+
+Lemma inv9b_reachable : forall p st, reachable p st -> inv9b st.
+Proof.
+  induction 1.
+  - unfold inv9b; cbn. split. constructor. intros j w X. destruct j; discriminate X.
+  - eapply inv9b_step; eauto.
+    + apply (inv7_reachable _ _ H).
+    + eapply inv9a_reachable; eauto.
+Qed.
+
+(* no file is requested twice; with success_outcome_proof: in a state in which Receive returned
+   nil the request list is a permutation of need_ids p *)
+Lemma reqs_nodup_proof : forall p st, reachable p st -> NoDup (reqs st).
+Proof. intros p st R. apply (inv9b_reachable _ _ R). Qed.
+
+Lemma need_ids_from_nodup : forall l i, NoDup (need_ids_from i l).
+Proof.
+  induction l; intro i; cbn [need_ids_from].
+  - constructor.
+  - destruct (e_kind a); try apply IHl. constructor; [|apply IHl].
+    intro X. apply need_ids_from_spec in X. destruct X as (k & e & _ & B & _). lia.
+Qed.
+
+Lemma success_requests_permutation_proof : forall p st, reachable p st -> recv_ret st = Some true ->
+  Permutation (reqs st) (need_ids p).
+Proof.
+  intros p st R Ok. apply NoDup_Permutation.
+  - eapply reqs_nodup_proof; eauto.
+  - apply need_ids_from_nodup.
+  - intro id. destruct (success_outcome_proof _ _ R Ok id) as [_ B].
+    rewrite <- B. symmetry. apply memb_true_iff.
 Qed.
